@@ -513,6 +513,15 @@ def _column_rebinding(col, rule="C14.R7"):
                     "(or under an explicit length test)", f"under {[S.show(c) for c in conds]}")
     if not n:
         raise AnalysisError("Table.__setitem__: no `self._data[key] = value` store -- cannot decide")
+    # a new entry is listed as a column only when its first dimension has the table's length (np.size, a product of dimensions, is not it)
+    for ev, m in sx.calls_some(("call", ("attr", NAMES, "append"), (key,), ())):
+        conds = sx.conds(ev.nid)
+        lens = [c for c0 in conds for c in S.conjuncts(c0) if c[:1] == ("cmp",) and c[1] == "==" and S.fcall("len", S.SELF) in (c[2], c[3])]
+        if not lens:
+            raise AnalysisError("Table.__setitem__: the test under which a new entry becomes a column is not recognised (cannot decide)")
+        okl = all(S.fcall("len", val) in (c[2], c[3]) for c in lens)
+        col.add(rule, "Table.__setitem__#new-column-has-the-table-length", okl, sx.loc(ev),
+                "a new entry is added to the column list when len(value) == len(table)", str([S.show(c) for c in lens]))
 
 
 def check(col: Collector):
